@@ -4,7 +4,9 @@ Monitor (implementation only): the same content is written twice by harness/frag
 with 1..4 (nested) subtrees cut into fragment files — and loaded twice; a digest of everything the API
 answers (parent, layer, every relation of every object incl. back-references, subtree-restricted searches,
 raw loader navigation) must be equal; the same edit script applied to both, saved and reloaded must again give
-equal digests, and every element must be found in the file that owns it.
+equal digests, and every element must be found in the file that owns it. Session histories keep ONE instance per
+layout across its saves: navigate -> edit -> save (the fragment's root element is replaced) -> navigate again -> edit below
+the fragmented element (reached by walking from its parent) -> save -> reload, compared step by step with the twin.
 
 Correspondence: the Lean model `Capella.Frag` gets the monolithic tree and the cut set, computes `split`,
 and (a) its files are compared, node by node, with the files the fragmenter wrote and the loader parsed,
@@ -35,7 +37,11 @@ RULE = ("layouts: for small models (writemodel, empty_project_52, filtering, lib
         "cuts; for large models seeded sets of 1-4 (nested) cuts; fragment files at depth 0-3 with spaces/%/#/non-ASCII, "
         "optional relocated main file and .airdfragment indirection. per layout: every semantic object's parent, layer and "
         "all relations (small models; seeded sample of objects on large ones), searches below every cut root, its parent and "
-        "a seeded sample, raw loader navigation for every element. distinct = distinct (model, cut set, object/relation); "
+        "a seeded sample, raw loader navigation for every element. sessions on one instance (quick 6, thorough 39 layouts; "
+        "fragment roots declaring all / only the used namespaces): navigate, create inside the fragment (first element of "
+        "another metamodel package preferred), save, navigate + full layout comparison + model tie on the same instance, "
+        "create below the fragmented element reached from its parent, save, owner map, reload. "
+        "distinct = distinct (model, cut set, object/relation); "
         "non-trivial = the object or one of its ancestors/descendants is a fragment root")
 ASSUMPTIONS = [
     "harness/fragmenter.py states what Capella's fragmentation writes (tag-typed root, href placeholder with xsi:type, link rewriting, semanticResources)",
@@ -863,6 +869,356 @@ def xmove_history(ctx: Ctx, out: Outcome, spec: dict, mono, frag, lay_m, lay_f, 
 
 
 
+# ------------------------------------------------------------------ sessions on ONE model instance with saves in the middle
+
+
+def build_layout6(spec: dict, dst: pathlib.Path):
+    """links.build_layout + the fragmenter options only C06 uses (`minimal_ns`)"""
+    if not spec.get("minimal_ns"):
+        return links.build_layout(spec, dst)
+    src = links.data_dir() / spec["model"]
+    res = {k: links.data_dir() / v for k, v in spec.get("resources", {}).items()}
+    return fragmenter.fragment(src, dst, [tuple(c) for c in spec["cuts"]], main_rel=spec.get("main_rel"),
+                               airdfragments=spec.get("airdfragments", False), resources=res, minimal_ns=True)
+
+
+def session_specs(ctx: Ctx, model: str, res: dict, n: int) -> list[dict]:
+    """layouts for session histories (navigate -> edit -> SAVE -> navigate -> edit below the fragmented element -> SAVE ->
+    reload, all on one model instance): one cut (sometimes a second, nested or elsewhere) at an element that has children
+    and an id-bearing parent; the fragment file declares either every namespace of the main file (a save has to tidy the
+    root up) or only the ones in use (`minimal_ns`: a save replaces the root when an edit brings the first element of
+    another metamodel package into the fragment)."""
+    from lxml import etree
+
+    src = links.data_dir() / model
+    main, _ = fragmenter.find_main(src)
+    root = etree.parse(str(src.parent / main)).getroot()
+    cands = [e for e in root.iter() if isinstance(e.tag, str) and _cuttable(e, root) and len(e) > 0 and e.getparent().get("id")
+             and e.tag != "ownedSpecification" and not (e.get(XSI_T) or "").endswith(("Realization", "Allocation", "Involvement"))]
+    # half of them: elements of a component / function / package kind (their classes have many coupled child lists)
+    rich = [e for e in cands if (e.get(XSI_T) or "").endswith(("Component", "Function", "Pkg", "Activity", "Entity", "Class", "Architecture", "Analysis"))]
+    out: list[dict] = []
+    used: set[str] = set()
+    for k in range(n):
+        pool = rich if (rich and k % 2 == 0) else cands
+        if not pool:
+            break
+        e = ctx.rng.choice(pool)
+        cuts = [e]
+        if ctx.rng.random() < 0.35:
+            e2 = ctx.rng.choice(cands)
+            if e2 is not e:
+                cuts.append(e2)
+        used.clear()
+        out.append({"model": model, "resources": res, "cuts": [[c.get("id"), links.gen_frag_path(ctx.rng, used)] for c in cuts],
+                    "main_rel": None, "airdfragments": False, "raw_nonascii": False, "small": (model, res) in SMALL,
+                    "minimal_ns": k % 2 == 1, "hints": {"session": {"n": k}}})
+    return out
+
+
+def _child_lists(capellambse, obj):
+    """(name, accessor) of the coupled child lists of an object (containment lists the API can create into)"""
+    out = []
+    for name in relation_names(capellambse, type(obj)):
+        acc = getattr(type(obj), name)
+        if type(acc).__name__ in LIST_ACCESSORS and getattr(acc, "aslist", None) is not None:
+            out.append((name, acc))
+    return out
+
+
+def _live(mdl, elem) -> bool:
+    """raw: the element hangs in one of the trees the loader holds (and would therefore be written by save())"""
+    top = elem
+    while top.getparent() is not None:
+        top = top.getparent()
+    return any(tree.root is top for tree in mdl._loader.trees.values())
+
+
+def nav_digest(capellambse, mdl, roots_parent: dict[str, str]) -> dict:
+    """what one SEES when walking to each fragmented element from its parent (not via by_uuid): the list it is found in,
+    whether the element in hand hangs in a loaded tree, its XML children, every relation of it; and the deep accessors of
+    the layers (`la.all_components` ...), which cross every placeholder below the layer"""
+    d: dict = {}
+    for r, pid in sorted(roots_parent.items()):
+        rec: dict = {}
+        try:
+            pobj = mdl.by_uuid(pid)
+        except Exception as e:  # noqa: BLE001
+            d[r] = {"parent": f"!{type(e).__name__}"}
+            continue
+        o = None
+        for name, _ in _child_lists(capellambse, pobj):
+            try:
+                hit = [x for x in getattr(pobj, name) if getattr(x, "uuid", None) == r]
+            except Exception as e:  # noqa: BLE001
+                rec["list:" + name] = f"!{type(e).__name__}"
+                continue
+            if hit:
+                o = hit[0]
+                rec["via"] = name
+                break
+        if o is None:
+            rec["via"] = None
+            d[r] = rec
+            continue
+        rec["live"] = _live(mdl, o._element)
+        rec["xml_children"] = [(c.tag, c.get("id") or (c.get("href") or "").split("#")[-1]) for c in o._element if isinstance(c.tag, str)]
+        try:
+            rec["parent"] = canon(o.parent)
+        except Exception as e:  # noqa: BLE001
+            rec["parent"] = f"!{type(e).__name__}"
+        for name in relation_names(capellambse, type(o)):
+            acc = getattr(type(o), name)
+            if isinstance(acc, capellambse.model.ReferenceSearchingAccessor) or type(acc).__name__ in SCAN_BASED:
+                continue
+            try:
+                rec["." + name] = canon(getattr(o, name))
+            except Exception as e:  # noqa: BLE001
+                rec["." + name] = f"!{type(e).__name__}"
+        d[r] = rec
+    for lname in ("oa", "sa", "la", "pa"):
+        try:
+            layer = getattr(mdl, lname)
+        except Exception:  # noqa: BLE001
+            continue
+        if layer is None:
+            continue
+        for name in relation_names(capellambse, type(layer)):
+            acc = getattr(type(layer), name)
+            if type(acc).__name__ != "DeepProxyAccessor":
+                continue
+            try:
+                d[f"{lname}.{name}"] = canon(getattr(layer, name))
+            except Exception as e:  # noqa: BLE001
+                d[f"{lname}.{name}"] = f"!{type(e).__name__}"
+    return d
+
+
+def _nav_compare(out: Outcome, case: dict, when: str, dm: dict, df: dict, roots: set[str]) -> None:
+    for r, rec in df.items():
+        if isinstance(rec, dict) and rec.get("live") is False:
+            out.find("session|navigation-yields-detached-element",
+                     f"{when}: walking from the parent to the fragmented element {r} (list {rec.get('via')!r}) yields an element that hangs in "
+                     f"none of the loaded trees (a save would not write what is added below it)", case)
+    for k in dm:
+        a, b = dm.get(k), df.get(k)
+        if a == b:
+            continue
+        if k in roots and isinstance(a, dict) and isinstance(b, dict):
+            kk = next(x for x in list(a) + list(b) if a.get(x) != b.get(x))
+            cls = "via-parent|" + ("children" if kk == "xml_children" else "live" if kk == "live" else "relation" if kk.startswith(".") else kk)
+            out.find(f"session|navigation-differs|{cls}", f"{when}: fragmented element {r if (r := k) else k} reached from its parent: {kk} "
+                     f"monolithic={str(a.get(kk))[:300]} fragmented={str(b.get(kk))[:300]}", case)
+        else:
+            out.find("session|navigation-differs|deep-accessor", f"{when}: {k} monolithic={str(a)[:300]} fragmented={str(b)[:300]}", case)
+
+
+def _create_candidates(capellambse, ctx: Ctx, mono, owner_ids: list[str], prefer_new_prefix_vs: set[str] | None):
+    """(owner id, list name, class name or None) in the order they are to be tried; with `prefer_new_prefix_vs` the lists whose
+    element type lives in a metamodel package that is not among the given prefixes come first"""
+    first, rest = [], []
+    for oid in owner_ids:
+        try:
+            obj = mono.by_uuid(oid)
+        except Exception:  # noqa: BLE001
+            continue
+        for name, acc in _child_lists(capellambse, obj):
+            xts = sorted(x for x in (getattr(acc, "xtypes", None) or ()) if isinstance(x, str) and ":" in x)
+            if not xts:
+                rest.append((oid, name, None))
+                continue
+            xt = ctx.rng.choice(xts)
+            item = (oid, name, xt.split(":")[1] if len(xts) > 1 else None)
+            if prefer_new_prefix_vs is not None and xt.split(":")[0] not in prefer_new_prefix_vs:
+                first.append(item)
+            else:
+                rest.append(item)
+    ctx.rng.shuffle(first)
+    ctx.rng.shuffle(rest)
+    return first + rest
+
+
+def _do_create(mdl, owner, name: str, cls: str | None, uuid: str, label: str) -> str:
+    try:
+        lst = getattr(owner, name)
+        if cls:
+            lst.create(cls, name=label, uuid=uuid)
+        else:
+            lst.create(name=label, uuid=uuid)
+        return "ok"
+    except Exception as e:  # noqa: BLE001
+        return "!" + type(e).__name__
+
+
+def _walk_to(capellambse, mdl, pid: str, r: str):
+    """the wrapper of the fragmented element r as found in a child list of its parent (None if it is not found there)"""
+    pobj = mdl.by_uuid(pid)
+    for name, _ in _child_lists(capellambse, pobj):
+        try:
+            for x in getattr(pobj, name):
+                if getattr(x, "uuid", None) == r:
+                    return x
+        except Exception:  # noqa: BLE001
+            continue
+    return None
+
+
+def session_history(ctx: Ctx, out: Outcome, spec: dict, mono, frag, lay_m, lay_f, tag: str, model_cases: list | None):
+    """ONE instance per layout, used before and after its saves: navigate (done by the caller's layout comparison and here) ->
+    edit 1 (create inside the fragment, preferably the first element of another metamodel package there; rename) -> SAVE
+    (the fragment's root element is replaced when its declarations change) -> navigate again -> edit 2 BELOW the fragmented
+    element, reached by walking from its parent -> SAVE -> reload; every step compared with the same session on the
+    monolithic twin, the files with the owner map, the saved-and-still-open instance also with the Lean model's answers."""
+    capellambse, helpers, core = _imports()
+    els = {e.get("id"): e for e in semantic_elements(mono)}
+    roots = {r for r in lay_f.fragments.values() if r in els}
+    roots_parent = {r: els[r].getparent().get("id") for r in roots if els[r].getparent() is not None and els[r].getparent().get("id")}
+    if not roots_parent:
+        return
+    case = {"kind": "edits", "layout": spec, "script": []}
+    out.case(("session", tag), None, nontrivial=True)
+    out.hit("session.layout." + ("minimal-namespaces" if spec.get("minimal_ns") else "all-namespaces-declared"))
+    uid = lambda: "00000000-c06c-4c06-8c06-%012d" % ctx.rng.randrange(10**12)  # noqa: E731
+
+    def frag_file_roots():
+        return {"/".join(fr.parts[1:]): tree.root for fr, tree in frag._loader.trees.items()
+                if fr.parts[0] == "\0" and posixpath.splitext(fr.parts[-1])[1] in SEMANTIC}
+
+    def save_both(when: str) -> bool:
+        sv = []
+        for mdl in (mono, frag):
+            try:
+                mdl.save()
+                sv.append("ok")
+            except Exception as e:  # noqa: BLE001
+                sv.append(f"!{type(e).__name__}: {e}"[:160])
+        if sv != ["ok", "ok"]:
+            if sv[0].split(":")[0] != sv[1].split(":")[0]:
+                out.find("session|save-outcome-differs", f"{when}: save() monolithic={sv[0]} fragmented={sv[1]}", case)
+            return False
+        return True
+
+    def owners_check(when: str):
+        expected = expected_owner(mono, lay_f)
+        owners = files_owner_map(lay_f.root, lay_f.project)
+        wrong = {i: (owners.get(i), f) for i, f in expected.items() if owners.get(i) != f}
+        extra = {i: f for i, f in owners.items() if i not in expected}
+        if wrong:
+            i, (got, want) = next(iter(sorted(wrong.items())))
+            out.find("session|save|element-not-in-owning-fragment", f"{when}: {len(wrong)} elements are not in the file that owns them, e.g. {i}: "
+                     f"in {got}, owner {want}", case)
+        if extra:
+            out.find("session|save|unexpected-elements", f"{when}: {len(extra)} elements that the monolithic twin does not have, e.g. {next(iter(extra.items()))}", case)
+        return expected
+
+    def layouts_equal(when: str, prefix: str, a, b, expected, budget: int):
+        o = Outcome()
+        try:
+            compare_layouts(ctx, o, spec, a, b, _with_owner(lay_f, expected), objs_budget=budget, with_backrefs=False, tag=tag + "+" + prefix,
+                            extra_ids=[st.get("id") for st in case["script"] if st.get("id")] + [st.get("uuid") for st in case["script"] if st.get("uuid")])
+        except Exception as e:  # noqa: BLE001
+            o.find(f"api|raises:{type(e).__name__}", f"observing raised {type(e).__name__}: {e}"[:240], case)
+        out.evaluations += o.evaluations
+        out.distinct |= o.distinct
+        for f in o.findings:
+            out.find(f"session|{prefix}|" + f.signature, f"{when}: " + f.what, case)
+
+    # ---- 0: navigate
+    _nav_compare(out, case, "freshly loaded", nav_digest(capellambse, mono, roots_parent), nav_digest(capellambse, frag, roots_parent), roots)
+    # ---- 1: edit inside a fragment
+    r0 = ctx.rng.choice(sorted(roots_parent))
+    inside = [r0] + [d.get("id") for d in els[r0].iterdescendants() if isinstance(d.tag, str) and d.get("id") and d.get(XSI_T)][:12]
+    used_prefixes = {(d.get(XSI_T) or ":").split(":")[0] for d in els[r0].iter() if isinstance(d.tag, str)}
+    created = []
+    for oid, name, cls in _create_candidates(capellambse, ctx, mono, inside, used_prefixes)[:8]:
+        u = uid()
+        st = {"op": "create", "id": oid, "attr": name, "cls": cls, "uuid": u}
+        case["script"].append(st)
+        rm = _do_create(mono, mono.by_uuid(oid), name, cls, u, "verif session 1")
+        try:
+            rf = _do_create(frag, frag.by_uuid(oid), name, cls, u, "verif session 1")
+        except Exception as e:  # noqa: BLE001
+            rf = "!by_uuid:" + type(e).__name__
+        if rm != rf:
+            out.find("session|outcome-differs|create", f"create in {name} of {oid}: monolithic={rm} fragmented={rf}", case)
+            return
+        if rm == "ok":
+            created.append((u, oid))
+            out.hit("session.edit1.create")
+            break
+        out.hit("session.edit1.refused")
+    st = {"op": "rename", "id": r0, "name": "verif session renamed"}
+    case["script"].append(st)
+    lm, lf = apply_script(mono, [st]), apply_script(frag, [st])
+    if lm != lf:
+        out.find("session|outcome-differs|rename", f"monolithic={lm} fragmented={lf}", case)
+        return
+    # ---- save 1 (in the middle of the session)
+    before = frag_file_roots()
+    if not save_both("first save"):
+        return
+    after = frag_file_roots()
+    replaced = sorted(f for f in after if f != lay_f.main and before.get(f) is not after[f])
+    out.hit("session.save1.fragment-root-replaced" if replaced else "session.save1.fragment-root-kept")
+    case["script"].append({"op": "save", "replaced_roots": replaced})
+    expected = owners_check("after the first save")
+    # ---- 2: navigate again, on the same instances
+    _nav_compare(out, case, "after the first save, same instance", nav_digest(capellambse, mono, roots_parent),
+                 nav_digest(capellambse, frag, roots_parent), roots)
+    layouts_equal("after the first save, same instance", "after-save", mono, frag, expected, 30)
+    if model_cases is not None and {e.get("id") for e in semantic_elements(mono)} == {e.get("id") for e in semantic_elements(frag)}:
+        from props import c06_model
+
+        try:
+            c06_model.collect(ctx, out, {**spec, "session": "after the first save, same instance"}, mono, frag, lay_f, model_cases, tag + "+session-saved")
+            out.hit("session.model-tie-after-save")
+        except Exception as e:  # noqa: BLE001
+            out.find(f"session|after-save|api|raises:{type(e).__name__}", f"navigating the saved instance raised {type(e).__name__}: {e}"[:240], case)
+    # ---- 3: edit BELOW the fragmented element, reached by walking from its parent
+    wm, wf = _walk_to(capellambse, mono, roots_parent[r0], r0), _walk_to(capellambse, frag, roots_parent[r0], r0)
+    if (wm is None) != (wf is None):
+        out.find("session|navigation-differs|via-parent|via", f"after the first save: {r0} is {'not ' if wf is None else ''}found in a child list of its parent "
+                 f"in the fragmented model, {'not ' if wm is None else ''}in the monolithic one", case)
+        return
+    if wm is not None:
+        for _, name, cls in _create_candidates(capellambse, ctx, mono, [r0], None)[:8]:
+            u = uid()
+            case["script"].append({"op": "create-below-walked", "id": r0, "attr": name, "cls": cls, "uuid": u})
+            rm, rf = _do_create(mono, wm, name, cls, u, "verif session 2"), _do_create(frag, wf, name, cls, u, "verif session 2")
+            if rm != rf:
+                out.find("session|outcome-differs|create-below-fragmented-element", f"after the first save: create in {name} of {r0} (reached from its parent): "
+                         f"monolithic={rm} fragmented={rf}", case)
+                return
+            if rm == "ok":
+                created.append((u, r0))
+                out.hit("session.edit2.create")
+                break
+            out.hit("session.edit2.refused")
+    _nav_compare(out, case, "after the second edit", nav_digest(capellambse, mono, roots_parent), nav_digest(capellambse, frag, roots_parent), roots)
+    # ---- save 2, files, reload
+    if not save_both("second save"):
+        return
+    expected = owners_check("after the second save")
+    try:
+        mono2 = capellambse.MelodyModel(lay_m.aird, resources=dict(lay_m.resources))
+        frag2 = capellambse.MelodyModel(lay_f.aird, resources=dict(lay_f.resources))
+    except Exception as e:  # noqa: BLE001
+        out.find(f"session|load|raises:{type(e).__name__}", f"reloading after the session raised {type(e).__name__}: {e}"[:240], case)
+        return
+    for u, oid in created:
+        res = []
+        for mdl in (mono2, frag2):
+            try:
+                res.append(canon(mdl.by_uuid(u).parent))
+            except Exception as e:  # noqa: BLE001
+                res.append("!" + type(e).__name__)
+        if res[0] != res[1]:
+            out.find("session|after-reload|created-element-differs", f"the element {u} created below {oid}: after reload its parent is monolithic={res[0]} "
+                     f"fragmented={res[1]}", case)
+    _nav_compare(out, case, "after reload", nav_digest(capellambse, mono2, roots_parent), nav_digest(capellambse, frag2, roots_parent), roots)
+    layouts_equal("after the session, reloaded", "after-reload", mono2, frag2, expected, 30)
+
+
 def _with_owner(lay, owner):
     import dataclasses
 
@@ -919,6 +1275,11 @@ def gen_specs(ctx: Ctx) -> list[dict]:
             s["raw_nonascii"] = False
             s["small"] = False
             specs.append(s)
+    # (d) sessions on one instance: navigate -> edit -> save (root replacement) -> navigate -> edit below the fragment -> save ->
+    # reload (generated last: the layouts above stay what they were for a given seed)
+    for (model, res), n in ([(SMALL[0], 3), (LARGE[3], 2), (LARGE[2], 1)] if not ctx.thorough
+                            else [(m, 6) for m in SMALL] + [(m, 3) for m in LARGE]):
+        specs += session_specs(ctx, model, res, n)
     return specs
 
 
@@ -982,7 +1343,7 @@ def run_layout(ctx: Ctx, out: Outcome, spec: dict, si: int, model_cases: list | 
     res = {k: links.data_dir() / v for k, v in spec.get("resources", {}).items()}
     src = links.data_dir() / spec["model"]
     lay_m = fragmenter.monolithic_copy(src, base / "mono", resources=res)
-    lay_f = links.build_layout(spec, base / "frag")
+    lay_f = build_layout6(spec, base / "frag")
     tag = spec["model"] + "#" + common.sha(spec)
     try:
         mono = capellambse.MelodyModel(lay_m.aird, resources=dict(lay_m.resources))
@@ -1026,6 +1387,8 @@ def run_layout(ctx: Ctx, out: Outcome, spec: dict, si: int, model_cases: list | 
         phase("reads-tie", lambda: c06_reads.collect(ctx, out, spec, mono, frag, lay_f, read_cases, tag))
     if (spec.get("hints") or {}).get("xmove"):
         phase("xmove", lambda: xmove_history(ctx, local, spec, mono, frag, lay_m, lay_f, tag))
+    elif (spec.get("hints") or {}).get("session"):
+        phase("session", lambda: session_history(ctx, local, spec, mono, frag, lay_m, lay_f, tag, model_cases))
     elif spec.get("hints") or si % ctx.pick(3, 5) == 0:
         phase("edits", lambda: edits_and_save(ctx, local, spec, mono, frag, lay_m, lay_f, tag))
     out.evaluations += local.evaluations
@@ -1052,7 +1415,9 @@ def run(ctx: Ctx) -> Outcome:
                             "multi_cut": sum(1 for s in specs if len(s["cuts"]) > 1),
                             "airdfragment_indirection": sum(1 for s in specs if s.get("airdfragments")),
                             "relocated_main": sum(1 for s in specs if s.get("main_rel")),
-                            "cross_file_move_histories": sum(1 for s in specs if (s.get("hints") or {}).get("xmove"))}
+                            "cross_file_move_histories": sum(1 for s in specs if (s.get("hints") or {}).get("xmove")),
+                            "sessions_with_saves_in_the_middle": sum(1 for s in specs if (s.get("hints") or {}).get("session")),
+                            "fragments_declaring_only_used_namespaces": sum(1 for s in specs if s.get("minimal_ns"))}
     model_cases: list | None = [] if os.environ.get("VERIF_NO_MODEL") != "1" and (common.LEAN / "Capella/Driver/Frag.lean").exists() else None
     read_cases: list | None = [] if model_cases is not None and (common.LEAN / "Capella/Driver/RelRead.lean").exists() else None
     for si, spec in enumerate(specs):
@@ -1085,7 +1450,7 @@ def _replay(ctx: Ctx, case: dict):
     o = Outcome()
     ctx.rng.seed(0)
     run_layout(ctx, o, spec, 0 if case.get("kind") == "edits" else 1, None)
-    kinds = {"object": "api|", "search": "api|search", "nav": "loader|", "edits": ("edit|", "edits|", "edited|", "save|", "after-edits|", "xmove|"), "layout": ("load|", "compare|", "model-tie|", "reads-tie|")}
+    kinds = {"object": "api|", "search": "api|search", "nav": "loader|", "edits": ("edit|", "edits|", "edited|", "save|", "after-edits|", "xmove|", "session|"), "layout": ("load|", "compare|", "model-tie|", "reads-tie|")}
     want = kinds.get(case.get("kind"), "")
     for f in o.findings:
         if f.signature.startswith(want):
